@@ -41,7 +41,11 @@ def make_pool(n, n_test, factor, noise):
   shift = np.zeros(n)
   shift[max(0, n - n_test):] = 60.0
   pool[4] = pool[4] + shift
-  return [np.round(p * 64) / 64 for p in pool]
+  pool = [np.round(p * 64) / 64 for p in pool]
+  # two near-duplicates of series 0 / 2 (relative difference ~5e-6 and exactly 2^-10): a different series, however close
+  pool.append(pool[0] + (np.arange(n) % 2) / 1024.0)
+  pool.append(pool[2] * (1 + 2.0 ** -18))
+  return pool
 
 
 class Runner:
@@ -196,7 +200,7 @@ def machine(tier, sink):
         self.done = True
         sink(self.r.spec, self.r.outcome())
 
-    @rule(i=st.integers(0, 5))
+    @rule(i=st.sampled_from([0, 1, 2, 3, 4, 5, 6, 7, 0, 6, 2, 7]))
     def set_x(self, i):
       self.r.step(['set_x', i])
 
